@@ -197,6 +197,10 @@ pub struct PreprocessTokenData {
     /// The location after the token
     /// Must be from the same file and after start_location
     end_location: SourceLocation,
+
+    /// Set on a macro name that was met while that macro was being replaced
+    /// Such a name is not replaced - and is also never replaced when the token is examined again later
+    no_expand: bool,
 }
 
 /// A [Token] with source location information attached
@@ -220,6 +224,7 @@ impl PreprocessToken {
                 PreprocessTokenData {
                     start_location: base_location.offset(start_offset),
                     end_location: base_location.offset(end_offset),
+                    no_expand: false,
                 },
             )
         }
@@ -232,8 +237,19 @@ impl PreprocessToken {
             PreprocessTokenData {
                 start_location: SourceLocation::UNKNOWN,
                 end_location: SourceLocation::UNKNOWN,
+                no_expand: false,
             },
         )
+    }
+
+    /// Mark a macro name as no longer available for replacement
+    pub fn set_no_expand(&mut self) {
+        self.1.no_expand = true;
+    }
+
+    /// Check if the token is a macro name which is no longer available for replacement
+    pub fn is_no_expand(&self) -> bool {
+        self.1.no_expand
     }
 }
 
